@@ -137,7 +137,7 @@ def run(prog, chk):
             chk.ob('R15.3', f, a.ln, ok, 'token position: %s' % why, key='start-capture:%s' % f.short)
         if may_nl and not aggs and toks:
             chk.ob('R15.3', f, f.ln, False, '%s can consume a newline inside a token but never reports a captured start position' % f.short, key='start-capture:%s' % f.short)
-    chk.count('token construction sites', ntok, 50)
+    chk.count('token construction sites', ntok, 40)
 
     # ---- premise: the first character of a token is not whitespace --------------------------------
     tk = fns['tokenize']
